@@ -60,10 +60,60 @@ def make_jobs(tier, seed, build, grammars=None):
         for n in range(0, nmax + 1):
             for shape in tok.all_shapes(n, g.decl):
                 jobs.append({"id": "%s:%s" % (gname, ",".join(shape)), "grammar": gname, "shape": shape, "fs": "none"})
+    if grammars is None:
+        for gname in CORPUS:
+            jobs.append({"id": "shorts:%s" % gname, "kind": "shorts", "grammar": gname, "shape": ()})
     return jobs
 
 
+def run_shorts_job(job, build):
+    """hand-off obligation between the token layer and the real code: the short flags / short
+    arguments `run_inner` collects for the tokenizer (Parser::meta + Meta::collect_shorts, executed
+    from MIR) are exactly the sets the token layer assumes for this grammar"""
+    from mirsym.engine import parse_callee, Unmodelled, ExecError, BoundExceeded
+    from mirsym.values import Cell, Ref, Seq
+    prog = tok.load_program(build, "none")
+    ex = tok.new_exec(prog)
+    g = CORPUS[job["grammar"]]
+    out = {"stats": None, "cex": [], "inconclusive": [], "samples": [], "nontrivial": 1, "classes": {}, "spec_leaves": 0}
+
+    def harness(ex):
+        parser = ex.call(parse_callee(g.builder), [])
+        L = ex.prog.layout
+        inner = parser.fields[L.adts["OptionParser"]["fields"].index("inner")]
+        meta = ex.call(parse_callee("<P as Parser<T>>::meta"), [Ref(Cell(inner, "inner"), ())])
+        flags, args = Cell(Seq(()), "flags"), Cell(Seq(()), "args")
+        ex.call(parse_callee("Meta::collect_shorts"), [Ref(Cell(meta, "meta"), ()), Ref(flags, ()), Ref(args, ())])
+        return (sorted(set(flags.v.items)), sorted(set(args.v.items)))
+
+    def on_path(ex, r):
+        if r.kind != "ok":
+            out["inconclusive"].append("collect_shorts panicked: %r" % (r.info,))
+            return
+        fl, ar = r.value
+        want_f = sorted(set(ord(c) for c in g.own_short_flags))
+        want_a = sorted(set(ord(c) for c in g.own_short_args))
+        out["samples"].append({"grammar": g.name, "short_flags": "".join(map(chr, fl)), "short_args": "".join(map(chr, ar))})
+        if fl != want_f or ar != want_a:
+            out["cex"].append({"kind": "short-name-table", "grammar": g.name, "shape": [], "argv": [], "env": {},
+                               "predicted": ["shorts", "flags=%s args=%s" % ("".join(map(chr, fl)), "".join(map(chr, ar)))],
+                               "expected": "flags=%s args=%s" % (g.own_short_flags, g.own_short_args), "extra": None,
+                               "native": ["shorts", "n/a"], "reproduced": True})
+    try:
+        ex.explore(harness, on_path)
+    except (Unmodelled, BoundExceeded, ExecError) as e:
+        out["inconclusive"].append("%s %s" % (type(e).__name__, e))
+    out["stats"] = dict(ex.stats)
+    out["models_used"] = dict(ex.model_hits)
+    out["fn_hits"] = dict(ex.fn_hits)
+    out["validated"] = 0
+    out["validated_agree"] = 0
+    return out
+
+
 def run_job(job, build):
+    if job.get("kind") == "shorts":
+        return run_shorts_job(job, build)
     return run_tok_job(job, build, CORPUS, Oracle())
 
 
